@@ -1685,12 +1685,30 @@ def run_C04(pid, tier, seed, model_ok=True):
                 if not reached:
                     break
                 res['fail'].append((k, lines, [x for x in r.stderr.splitlines() if 'SHIM FAIL' in x][-1:]))
+            # ---- one failing READ (open of state.json / patches_state.json / an artifact for reading), execution continues.
+            # The model has no read steps: these runs are judged on the implementation only (no inclusion check).
+            res['rfail'] = []
+            for k in range(0, 120):
+                wd = os.path.join(d, 'r%d' % k)
+                r = subprocess.run([UVH, 'replay', f, wd], capture_output=True, text=True, env=dict(env, SHIM_FAIL=str(k), SHIM_READS='1', UVH_KEEP=''))
+                lines = [l for l in r.stdout.splitlines() if l.startswith('out=')]
+                hitl = [x for x in r.stderr.splitlines() if 'SHIM FAIL' in x][-1:]
+                shutil.rmtree(wd, ignore_errors=True)
+                if not hitl:
+                    break
+                if 'read-open' not in hitl[0]:
+                    continue
+                if r.returncode != 0 or len(lines) != len(ops) + len(tail):
+                    res['problems'].append('run with failing read %d %s: rc=%d, %d of %d results %s' % (k, hitl, r.returncode, len(lines), len(ops) + len(tail), r.stdout[-200:]))
+                    break
+                res['rfail'].append((k, lines, hitl))
             shutil.rmtree(d, ignore_errors=True)
             return res
 
         with ThreadPoolExecutor(max_workers=NPROC) as ex:
             results = list(ex.map(one, targets))
         kinds = {t[0]: t[4] for t in targets}
+        nread = [0]
         for res in results:
             name = res['name']
             ops = res['ops']
@@ -1736,11 +1754,12 @@ def run_C04(pid, tier, seed, model_ok=True):
                         why = 'a patch of another release (crash_in_release_change)'
                     if why:
                         fails.append((name, len(ops) - 1, 'C04: after a kill at step %d %s the next launch selects patch %d: %s' % (k, where, n, why), ops, header))
-            for (k, lines, where) in res['fail']:
+            nread[0] += len(res.get('rfail', []))
+            for (k, lines, where) in res['fail'] + [(k_, l_, w_ + ['READ']) for (k_, l_, w_) in res.get('rfail', [])]:
                 evals += 1
                 st = state_of(lines[len(ops) - 1])
                 distinct.add((name, 'F', st))
-                if model_ok and st not in res['model_fail']:
+                if model_ok and 'READ' not in where and st not in res['model_fail']:
                     divs.append((name, len(ops) - 1, 'no model outcome of a failing step equals the real state (failing real step %d %s)' % (k, where), st, ops, header))
                 sts = [parse_line(l) for l in lines]
                 # patch selected afterwards, in this process and at the next launch
@@ -1765,7 +1784,7 @@ def run_C04(pid, tier, seed, model_ok=True):
                                 'example': res['crash'][0][1][:160]})
         return dict(evaluations=evals, distinct=len(distinct), samples=samples, divergences=divs, monitor_fail=fails,
                     rule='for %d (state, call) targets incl. restart with crash detection, first launch of another release, unreadable state.json: the real process is killed (LD_PRELOAD shim) before each mutating system call of the call, the next launch is played; and each mutating call is made to fail with EIO once with execution continuing. Real crash/fault states must be among the model\'s (all k, all partial-deletion subsets), recoveries equal; safety judged on the implementation; non-trivial = distinct (target, abstract crash state); model crash states hit: %d' % (len(targets), len(hit_states)),
-                    dist={'targets': len(targets)}, extras=extras, traces=evals)
+                    dist={'targets': len(targets), 'failing_reads_judged_on_the_implementation': nread[0]}, extras=extras, traces=evals)
     finally:
         ctx.cleanup()
         shutil.rmtree(work, ignore_errors=True)
